@@ -128,6 +128,16 @@ func (w *World) typedNilErr(id string) error {
 	return e
 }
 
+// unsatErr: an error that wraps an *ErrArgumentUnsatisfied with empty Inputs/Converters.
+func (w *World) unsatErr(id string) error {
+	if e, ok := w.Errs[id]; ok {
+		return e
+	}
+	e := fmt.Errorf("delegate failed: %w", &am.ErrArgumentUnsatisfied{Func: w.Funcs[id], Args: []*am.Value{{Name: "inner", Type: typeOf(4)}}})
+	w.Errs[id] = e
+	return e
+}
+
 func (w *World) record(spec FuncSpec, terms []string) {
 	if w.Quiet {
 		return
@@ -234,6 +244,9 @@ func (w *World) rawFunc(spec FuncSpec) interface{} {
 				e := w.failErr(spec.ID)
 				if spec.TypedNil {
 					e = w.typedNilErr(spec.ID)
+				}
+				if spec.UnsatErr {
+					e = w.unsatErr(spec.ID)
 				}
 				res = append(res, reflect.ValueOf(&e).Elem())
 			} else {
